@@ -12,15 +12,17 @@ from .depthrules import polarity_rule
 
 LEVEL_TEXT = (
     "The four claims are about the result of a fixpoint on arbitrary class hierarchies (values).  Decided are three "
-    "structural parts: (R1) every walker over field types (register_type, collect_types, get_distance_to_terminal, "
-    "preprocess.explode_generics, usable_grammar, strip_annotations / is_terminal) handles the wrapper forms list, "
-    "annotated and union/generic (tuple included), and what it takes out of a wrapper flows back into code that again "
-    "handles every wrapper form (a recursive call, or a worklist whose consumer does) - otherwise nested wrappers or "
-    "tuples are skipped; (R2) AND/OR polarity of the distance equations: union and abstract symbols aggregate with "
-    "min, tuples and concrete productions with max, and the fixpoint only decreases values; (R3) the places that "
-    "enumerate base types agree: every base type a creator produces without consuming a level has distance 0 in the "
-    "default mode. Exact minimum depths, the exact recursive set and language equality of the usable sub-grammar are "
-    "not claimed."
+    "structural parts: (R1) leaf coverage of every walker over field types (register_type, collect_types, explode_generics, "
+    "usable_grammar, strip_annotations - found by name anywhere in the grammar package): each is interpreted (sa/modelinterp: "
+    "the repository's own type-form predicates inlined over a model of what the typing runtime exposes, recursive calls "
+    "followed, worklists and generators modelled) on nine nested wrapper types built from list / Annotated / Union / tuple "
+    "over two classes and must reach exactly the classes inside, never stopping at or failing on a wrapper; "
+    "get_distance_to_terminal is interpreted on nested wrappers with symbolic table entries and must charge every level; "
+    "field types reach the reachability propagation unfiltered; (R2) AND/OR polarity of the distance equations: union and "
+    "abstract symbols aggregate with min, tuples and concrete productions with max, and the fixpoint only decreases "
+    "values; (R3) the places that enumerate base types agree: every base type a creator produces without consuming a "
+    "level has distance 0 in the default mode. Exact minimum depths, the exact recursive set and language equality of the "
+    "usable sub-grammar are not claimed."
 )
 
 GRAMMAR_MOD = "geneticengine.grammar.grammar"
